@@ -43,9 +43,9 @@ func (c06) Assumptions() []string {
 }
 func (c06) NumCases(tier string, _ int64) int {
 	if tier == "thorough" {
-		return 20000
+		return 80000
 	}
-	return 1200
+	return 4000
 }
 func (c06) Exhaustive(string) bool { return false }
 func (c06) Floors(string) []runner.Floor {
